@@ -243,6 +243,7 @@ def configs(tier):
         ops += _op_block([2, 3], range(1, 5), 2, [d_f64], [None], ['ran_shp'],
                          ran_dtype='float32')
     cfgs += ops
+    cfgs += _hist_cfgs(tier)
     for name in REJ:
         cfgs.append({'kind': 'rej', 'name': name})
     return cfgs
@@ -868,10 +869,11 @@ def _run_op(cfg):
     req_nob = _nobs(ndim, dk_nob) if dk_nob is not None else None
     cplx = np.dtype(domspec['dtype']).kind == 'c'
     n_in, n_out = int(np.prod(shape)), int(np.prod(newshp))
-    head0 = ('domain=%s how=%s ran_shp=%s offset=%s discr_kwargs nodes_on_bdry=%s weighting=%s'
+    head0 = ('domain=%s how=%s ran_shp=%s offset=%s discr_kwargs nodes_on_bdry=%s weighting=%s%s'
              % (_srepr(dom), how, list(newshp),
                 cfg['offset'][0] if cfg.get('offset_form') == 'scalar' else cfg['offset'],
-                dk_nob, cfg.get('w')))
+                dk_nob, cfg.get('w'),
+                ' dtype=%s' % cfg['ran_dtype'] if cfg.get('ran_dtype') else ''))
 
     def make(mode, c):
         kw = {'pad_mode': mode}
@@ -1172,6 +1174,154 @@ def _run_op(cfg):
 
 
 # ------------------------------------------------------------------------------------------
+# kind 'hist': constructor-argument history.  Every array-like constructor argument is
+# overwritten IN PLACE by the caller after construction; the operator built before must not
+# change in any clause (an operator is a value: what it computes is fixed when it is created).
+
+HIST_ARGS = ['pad_const', 'ran_shp', 'offset', 'min_pt', 'max_pt', 'dom_shape']
+
+
+def _hist_cfgs(tier):
+    th = tier == 'thorough'
+    cfgs = []
+    geoms = [([2], [4], [1]), ([3], [2], [1]), ([2, 2], [3, 1], [1, 0])]
+    if th:
+        geoms += [([1], [3], [2]), ([3], [3], [0]), ([4], [7], [0]), ([2, 3], [4, 5], [1, 2]),
+                  ([3, 2], [2, 4], [1, 1]), ([2, 2, 2], [3, 2, 1], [1, 0, 1])]
+    for shape, newshp, off in geoms:
+        for dtype in (['float64', 'complex128', 'float32'] if th else ['float64']):
+            for mode in MODES:
+                for c in ([0, 1.5] if mode == 'constant' else [0]):
+                    for pcf in ('same', 'other', '1-elem'):
+                        cfgs.append({'kind': 'hist', 'shape': shape, 'newshp': newshp,
+                                     'offset': off, 'dtype': dtype, 'mode': mode, 'c': c,
+                                     'pc_form': pcf})
+    return cfgs
+
+
+def _observe(op, X, Y, shape, newshp):
+    """Everything C16 looks at, as one comparable value."""
+    obs = {}
+    obs['pad_const'] = complex(op.pad_const)
+    obs['is_linear'] = bool(op.is_linear)
+    obs['offset'] = tuple(int(o) for o in op.offset)
+    obs['axes'] = tuple(op.axes)
+    for nm, sp in (('domain', op.domain), ('range', op.range)):
+        obs[nm] = (tuple(sp.shape), tuple(float(v) for v in sp.min_pt),
+                   tuple(float(v) for v in sp.max_pt), str(sp.dtype))
+    obs['forward'] = _op_matrix(op, X, shape).tolist()
+    inv = op.inverse
+    obs['inverse.pad_const'] = complex(inv.pad_const)
+    obs['inverse.is_linear'] = bool(inv.is_linear)
+    try:
+        obs['inverse'] = _op_matrix(inv, Y, newshp).tolist()
+    except ValueError as e:         # inadmissible padding in the opposite direction
+        obs['inverse'] = 'ValueError'
+    if op.is_linear:
+        obs['adjoint'] = _op_matrix(op.adjoint, Y, newshp).tolist()
+    else:
+        obs['derivative'] = _op_matrix(op.derivative(op.domain.zero()), X, shape).tolist()
+    # is_linear must agree with what the operator does to 0
+    zero_out = np.asarray(obs['forward'][1])
+    obs['maps_zero_to_zero'] = bool(np.all(zero_out == 0))
+    return obs
+
+
+def _run_hist(cfg):
+    shape, newshp, off = tuple(cfg['shape']), tuple(cfg['newshp']), tuple(cfg['offset'])
+    ndim = len(shape)
+    mode, c = cfg['mode'], cfg['c']
+    dt = np.dtype(cfg['dtype'])
+    cplx = dt.kind == 'c'
+    first = {}
+    evals = 0
+    head = ('ResizingOperator(uniform_discr(min_pt, max_pt, dom_shape, dtype=%s), ran_shp=%s, '
+            'offset=%s, pad_mode=%s, pad_const=%s [%s]) with array-valued arguments'
+            % (dt.name, list(newshp), list(off), mode, c, cfg['pc_form']))
+
+    def report(site, sym, det):
+        first.setdefault((site, sym), det)
+
+    why = R.why_inadmissible(shape, newshp, off, mode)
+    if why:
+        return {'evals': 0, 'skipped': 1, 'sig': 'hist:inadmissible', 'trivial': True}
+    ext = [_extent(ax, shape[ax], G0[ax], (0, 0)) for ax in range(ndim)]
+    args = {
+        'min_pt': np.array([e[0] for e in ext], dtype='float64'),
+        'max_pt': np.array([e[1] for e in ext], dtype='float64'),
+        'dom_shape': np.array(shape, dtype='int64'),
+        'ran_shp': np.array(newshp, dtype='int64'),
+        'offset': np.array(off, dtype='int64'),
+    }
+    other = {'float64': 'float32', 'float32': 'float64', 'complex128': 'complex64'}[dt.name]
+    if cfg['pc_form'] == 'same':
+        args['pad_const'] = np.array(c, dtype=dt)               # 0-d, exactly the range dtype
+    elif cfg['pc_form'] == 'other':
+        args['pad_const'] = np.array(c, dtype=other)            # 0-d, another dtype
+    else:
+        args['pad_const'] = np.array([c], dtype=dt)[0:1].reshape(())   # 0-d view of a buffer
+    site0 = 'ResizingOperator[constructor]'
+    try:
+        dom = odl.uniform_discr(args['min_pt'], args['max_pt'], args['dom_shape'], dtype=dt)
+        op = odl.ResizingOperator(dom, ran_shp=args['ran_shp'], offset=args['offset'],
+                                  pad_mode=mode, pad_const=args['pad_const'])
+    except Exception as e:
+        return {'evals': 1, 'sig': 'hist:ctor-raises', 'viol': [
+            {'site': site0, 'symptom': 'raises:' + type(e).__name__,
+             'detail': head + ': %r' % (e,)}]}
+    n_in, n_out = int(np.prod(shape)), int(np.prod(newshp))
+    X, Y = _inputs(n_in, cplx), _inputs(n_out, cplx)
+    try:
+        obs0 = _observe(op, X, Y, shape, newshp)
+    except Exception as e:
+        return {'evals': 1, 'sig': 'hist:observe-raises', 'viol': [
+            {'site': site0, 'symptom': _exc_symptom(e), 'detail': head + ': %r' % (e,)}]}
+    evals += len(X) + 2 * len(Y)
+    # the operator built from arrays must be the documented one in the first place
+    M, cmask = R.matrix(shape, newshp, off, mode)
+    EXP = X @ M.T.astype(X.dtype) + c * cmask[None, :]
+    if not _same(np.array(obs0['forward']), EXP.astype(dt)):
+        report(site0, 'forward_differs', head + ': rows %s, expected %s'
+               % (_fmt(np.array(obs0['forward'])), _fmt(EXP)))
+    lin = (mode != 'constant' or c == 0)
+    if obs0['is_linear'] != lin or (lin and not obs0['maps_zero_to_zero']):
+        report(site0, 'is_linear_flag_wrong', head + ': is_linear=%s, A(0)==0: %s'
+               % (obs0['is_linear'], obs0['maps_zero_to_zero']))
+    # now the caller re-uses its arrays
+    new_vals = {'pad_const': 7, 'ran_shp': [n + 1 for n in newshp],
+                'offset': [o + 1 for o in off], 'min_pt': args['min_pt'] + 10,
+                'max_pt': args['max_pt'] + 20, 'dom_shape': [n + 1 for n in shape]}
+    changed_sig = []
+    for name in HIST_ARGS:
+        before = args[name].copy()
+        args[name][...] = new_vals[name]
+        site = 'ResizingOperator[argument %s overwritten after construction]' % name
+        try:
+            obs = _observe(op, X, Y, shape, newshp)
+            evals += len(X) + 2 * len(Y)
+        except Exception as e:
+            report(site, _exc_symptom(e), head + ': after %s[...] = %s: %r'
+                   % (name, new_vals[name], e))
+            continue
+        diff = [k for k in obs0 if obs[k] != obs0[k]]
+        if diff:
+            k = diff[0]
+            report(site, 'operator_changed', head + ': after the caller executed %s[...] = %s '
+                   '(was %s) the existing operator changed in %s; first: %s was %s, is %s'
+                   % (name, new_vals[name], before.tolist(), diff, k,
+                      str(obs0[k])[:200], str(obs[k])[:200]))
+            changed_sig.append(name)
+        if obs['is_linear'] and not obs['maps_zero_to_zero']:
+            report(site, 'is_linear_inconsistent', head + ': after %s[...] = %s: is_linear=True '
+                   'but A(0) != 0' % (name, new_vals[name]))
+        args[name][...] = before        # one argument at a time
+    viol = [{'site': s, 'symptom': y, 'detail': d} for (s, y), d in sorted(first.items())]
+    return {'evals': evals, 'viol': viol, 'skipped': 0, 'trivial': evals == 0,
+            'sig': 'hist:%s:%s:%s' % (mode, 'lin' if lin else 'affine',
+                                      ','.join(changed_sig) or 'stable')}
+
+
+# ------------------------------------------------------------------------------------------
 # kind 'rej': argument combinations the documentation excludes must be refused cleanly
 
 def _run_rej(cfg):
@@ -1313,6 +1463,15 @@ def meta(tier):
                                  'deviation; 4-d {1,2}^4 -> {1,2,3}^4 base')
             if th else 'shape {2,3}^3 -> {1..4}^3, base variant',
             'dtypes': DTYPES, 'out': ['absent', 'C', 'F', 'strided view', 'wider dtype'],
+            'exact-integer dtype pairs (input, out)': [list(map(str, p)) for p in XPAIRS],
+            'exact-integer bounds': ('1-d 0..6 -> 0..12, 2-d {1,2,3}^2 -> {1..5}^2 all pairs, 3-d '
+                                     '{2,3}^3 -> {1..4}^3 four pairs') if th else
+            '1-d 0..4 -> 0..7 all pairs, 2-d {2,3}^2 -> {1..4}^2 four pairs',
+            'exact-integer inputs': 'generic, 0, e_k, V-shaped ramp (base 2**60 for 64-bit), '
+                                    'large flat (100 int8, 200 uint8, 2**63 uint64, 6e4 float16, '
+                                    '2**24/1 float32)',
+            'argument history': '%d operators x 6 overwritten constructor arguments'
+                                % len(_hist_cfgs(tier)),
             'input layout': ['C', 'F', 'strided view', 'negative strides', 'nested list'],
             'pad_const': '0, 1.5 (float), 1+2j (complex), 2 (int)',
             'ResizingOperator': ('1-d n 1..5 -> 1..9, 2-d {1,2,3}^2 -> {1..5}^2, 3-d {2}^3 -> '
@@ -1325,11 +1484,23 @@ def meta(tier):
         },
         'assumptions': [
             'offsets outside [0, |new - old|] (block not inside the larger array) are not '
-            'documented and not enumerated; for resize_array the same holds for a non-zero offset '
-            'in an axis of unchanged size. For ResizingOperator(ran_shp=, offset=) non-zero '
-            'entries (1, 2; per axis or one integer for all axes) on axes of unchanged size ARE '
-            'enumerated: nothing is added or removed there, so the range must keep the '
-            'domain\'s grid and extent in that axis and op.offset must be 0 there',
+            'documented and not enumerated. Non-zero offset entries on axes of UNCHANGED size '
+            '(1, size-1, 2; as a sequence or as one integer for all axes) ARE enumerated, for '
+            'resize_array (base variant) and for ResizingOperator(ran_shp=, offset=): nothing is '
+            'added or removed there and resizing is documented not to shift, so the entry must '
+            'not influence the values, the range must keep the domain\'s grid and extent in that '
+            'axis and op.offset must be 0 there',
+            'narrow / unsigned / mixed dtypes (kind arrx: int8, uint8, uint64, int64, float16, '
+            'float32 inputs; out absent or int64/float64) are judged against an exact Python-'
+            'integer reference, and only where the exact result is representable in the result '
+            'dtype (out.dtype if out is given, else the input dtype) and, for floating results, '
+            'every partial sum is exact too; wrap-around and rounding cases are counted under '
+            'unspecified_skipped, as is the adjoint direction of order1 on unsigned results '
+            '(its matrix has negative entries)',
+            'kind hist: an operator is a value -- after the caller overwrites, in place, an array '
+            'it passed to the constructor (pad_const 0-d of the range dtype / another dtype / a '
+            'view, ran_shp, offset, and the domain\'s min_pt, max_pt, shape), every observation '
+            'C16 makes of the operator built before must be unchanged',
             'a non-integer pad_const for integer data and a non-zero pad_const in the adjoint '
             'direction are unspecified (counted under unspecified_skipped, any clean outcome '
             'accepted)',
